@@ -400,8 +400,26 @@ func runC10(r *Report) {
 						adv = false
 						break
 					}
-					good = capOK && adv && zero
+					// the loop frames windows until lo reaches len(p) exactly: the guard that admits this
+					// frame is `lo < len(p)` on the raw length (a guard on len(p)-1 drops the last byte)
+					covers := false
+					for _, ft := range Facts(c.Block()) {
+						bo, isB := ft.Cond.(*ssa.BinOp)
+						if !isB {
+							continue
+						}
+						switch {
+						case bo.Op == token.LSS && ft.Pol && bo.X == ssa.Value(lo) && isLenP(bo.Y),
+							bo.Op == token.GEQ && !ft.Pol && bo.X == ssa.Value(lo) && isLenP(bo.Y),
+							bo.Op == token.GTR && ft.Pol && bo.Y == ssa.Value(lo) && isLenP(bo.X),
+							bo.Op == token.NEQ && ft.Pol && bo.X == ssa.Value(lo) && isLenP(bo.Y):
+							covers = true
+						}
+					}
+					good = capOK && adv && zero && covers
 					switch {
+					case !covers:
+						why = "the loop is not guarded by lo < len(p) on the whole buffer (the last bytes would never be framed)"
 					case !capOK:
 						why = "window size hi-lo is not bounded by MaxFrameSize"
 					case !zero:
@@ -638,10 +656,6 @@ func runC10(r *Report) {
 		if len(ret.Results) < 2 || !isEOFVal(RetVal(ret, 1)) || !frame.Block().Dominates(ret.Block()) {
 			continue
 		}
-		// only returns decided by the frame type (not by a read error of the frame itself)
-		if ErrFailed(ret.Block(), frame) {
-			continue
-		}
 		nEOF++
 		latched := !reachesFromWithout(frame.(ssa.Instruction), ret, func(x ssa.Instruction) bool {
 			st, ok := x.(*ssa.Store)
@@ -660,6 +674,36 @@ func runC10(r *Report) {
 	if nEOF == 0 {
 		r.Fail("R-C10-4", rf.Pos(), "no end-of-stream return after the frame read found", "FrameStream.Read", "eof-latched")
 	}
+	// the two directions of the cross-node forward each publish their own completion flag and consult
+	// the OTHER direction's: a direction that reads the flag it has just set tears the pair down as soon
+	// as it finishes, losing the reply that follows a half-close
+	if bf := r.need("R-C10-5", "internal/protocol/session", "runBidirectionalForward"); bf != nil {
+		nDir := 0
+		for _, g := range WithAnon(bf) {
+			if g == bf {
+				continue
+			}
+			stored := map[ssa.Value]bool{}
+			var loaded []ssa.CallInstruction
+			for _, h := range WithAnon(g) {
+				for _, c := range Calls(h, false, "atomic:StoreInt32") {
+					stored[flagVar(Arg(c, 0))] = true
+				}
+				loaded = append(loaded, Calls(h, false, "atomic:LoadInt32")...)
+			}
+			if len(stored) == 0 || len(loaded) == 0 || g.Parent() != bf {
+				continue
+			}
+			nDir++
+			for _, l := range loaded {
+				r.Ob("R-C10-5", CallPos(l), !stored[flagVar(Arg(l, 0))], "a forwarding direction decides 'both finished' on the other direction's completion flag, not on the one it sets itself", r.P.FuncName(g), "consults-other-direction")
+			}
+		}
+		if nDir < 2 {
+			r.Fail("R-C10-5", bf.Pos(), fmt.Sprintf("only %d forwarding directions with completion flags found (2 confirmed by hand)", nDir), "runBidirectionalForward", "directions:floor")
+		}
+	}
+
 	// wrappers between the local connection and the frame stream are transparent
 	if nw := checkDelegatingWrappers(r, "R-C10-4", "internal/protocol/session", cnPkg); nw < 2 {
 		r.Fail("R-C10-4", 0, fmt.Sprintf("only %d delegating Read/Write wrappers found on the cross-node path (2 confirmed by hand: CountingReadWriter.Read/Write)", nw), "wrappers", "floor")
@@ -853,4 +897,11 @@ func isDrainHelper(g *ssa.Function, pi int) bool {
 		}
 	}
 	return true
+}
+
+// flagVar identifies the variable an atomic operation addresses: the alloc / captured variable
+// behind &x (looking through the closure binding).
+func flagVar(v ssa.Value) ssa.Value {
+	v = stripValue(v)
+	return rootOfCapture(v)
 }
